@@ -3165,9 +3165,17 @@ func (p *Posix) DeleteObject(ctx context.Context, input *s3.DeleteObjectInput) (
 					}, nil
 				}
 
-				srcObjVersion, err := ents[len(ents)-1].Info()
-				if err != nil {
-					return nil, fmt.Errorf("get file info: %w", err)
+				// the previous version is the most recently stored one, which is
+				// not the last by name: "null" sorts after every other version id
+				var srcObjVersion fs.FileInfo
+				for _, ent := range ents {
+					fi, err := ent.Info()
+					if err != nil {
+						return nil, fmt.Errorf("get file info: %w", err)
+					}
+					if srcObjVersion == nil || !fi.ModTime().Before(srcObjVersion.ModTime()) {
+						srcObjVersion = fi
+					}
 				}
 				srcVersionId := srcObjVersion.Name()
 				sf, err := os.Open(filepath.Join(versionPath, srcVersionId))
